@@ -1,6 +1,7 @@
 package core
 
 import (
+	"sync"
 	"fmt"
 	"go/constant"
 	"go/token"
@@ -169,7 +170,9 @@ func indexIn(in ssa.Instruction) int {
 	return -1
 }
 
-// Dominates: a is executed before b on every path that reaches b (same function).
+// Dominates: a is executed before b on every path that reaches b (same function). Besides plain dominance this accepts the case where
+// every path around a's block is infeasible because of a correlated nil test (see corrJoins): b is unreachable from the entry once a's block
+// is removed.
 func Dominates(a, b ssa.Instruction) bool {
 	if a.Parent() != b.Parent() {
 		return false
@@ -177,13 +180,157 @@ func Dominates(a, b ssa.Instruction) bool {
 	if a.Block() == b.Block() {
 		return indexIn(a) < indexIn(b)
 	}
-	return a.Block().Dominates(b.Block())
+	if a.Block().Dominates(b.Block()) {
+		return true
+	}
+	fn := a.Parent()
+	if len(corrJoins(fn)) == 0 || len(fn.Blocks) == 0 {
+		return false
+	}
+	r := reach([]*ssa.BasicBlock{fn.Blocks[0]}, map[*ssa.BasicBlock]bool{a.Block(): true}, nil)
+	if r[b.Block()] {
+		return false
+	}
+	all := reach([]*ssa.BasicBlock{fn.Blocks[0]}, nil, nil)
+	return all[b.Block()]
 }
 
-// reach computes the blocks reachable from the start blocks, never entering a block in `avoid` and never following a cut edge.
+var corrCache sync.Map // *ssa.Function -> map[*ssa.BasicBlock][]int
+
+// corrJoins finds the blocks J that end in `if p == nil` / `if p != nil` where p is a phi of J itself, and decides, per predecessor of J,
+// which successor is the only feasible one when J is entered from that predecessor: the value the phi receives on that edge is the nil
+// constant, or a value already known to be non-nil there (an error made by a constructor, or a value whose own `!= nil` test's non-nil branch
+// dominates the predecessor). This is the shape an error takes when it travels through a result variable — written in a branch that tested
+// it, read after the join — and it is what keeps the paths "failed, yet continues as if it had not" out of every reachability question.
+// Entry i of the result is 0 or 1 (index of the feasible successor) or -1 (both).
+func corrJoins(fn *ssa.Function) map[*ssa.BasicBlock][]int {
+	if v, ok := corrCache.Load(fn); ok {
+		return v.(map[*ssa.BasicBlock][]int)
+	}
+	out := map[*ssa.BasicBlock][]int{}
+	// nil tests of the function: value -> (block whose entry implies non-nil, block whose entry implies nil)
+	type impl struct{ nonNil, isNil []*ssa.BasicBlock }
+	tests := map[ssa.Value]*impl{}
+	for _, b := range fn.Blocks {
+		if len(b.Instrs) == 0 {
+			continue
+		}
+		ifi, ok := b.Instrs[len(b.Instrs)-1].(*ssa.If)
+		if !ok {
+			continue
+		}
+		bo, ok := ifi.Cond.(*ssa.BinOp)
+		if !ok || (bo.Op != token.EQL && bo.Op != token.NEQ) {
+			continue
+		}
+		var v ssa.Value
+		if IsNilConst(bo.Y) {
+			v = bo.X
+		} else if IsNilConst(bo.X) {
+			v = bo.Y
+		}
+		if v == nil || b.Succs[0] == b.Succs[1] {
+			continue
+		}
+		nn, nl := b.Succs[0], b.Succs[1] // for NEQ: true edge = non-nil
+		if bo.Op == token.EQL {
+			nn, nl = nl, nn
+		}
+		if tests[v] == nil {
+			tests[v] = &impl{}
+		}
+		if len(nn.Preds) == 1 {
+			tests[v].nonNil = append(tests[v].nonNil, nn)
+		}
+		if len(nl.Preds) == 1 {
+			tests[v].isNil = append(tests[v].isNil, nl)
+		}
+	}
+	known := func(v ssa.Value, at *ssa.BasicBlock) int { // 1 non-nil, 0 nil, -1 unknown
+		if IsNilConst(v) {
+			return 0
+		}
+		if certainlyNonNil(v) {
+			return 1
+		}
+		if t := tests[v]; t != nil {
+			for _, s := range t.nonNil {
+				if s == at || s.Dominates(at) {
+					return 1
+				}
+			}
+			for _, s := range t.isNil {
+				if s == at || s.Dominates(at) {
+					return 0
+				}
+			}
+		}
+		return -1
+	}
+	for _, b := range fn.Blocks {
+		if len(b.Instrs) == 0 || len(b.Preds) < 2 {
+			continue
+		}
+		ifi, ok := b.Instrs[len(b.Instrs)-1].(*ssa.If)
+		if !ok || b.Succs[0] == b.Succs[1] {
+			continue
+		}
+		bo, ok := ifi.Cond.(*ssa.BinOp)
+		if !ok || (bo.Op != token.EQL && bo.Op != token.NEQ) {
+			continue
+		}
+		var v ssa.Value
+		if IsNilConst(bo.Y) {
+			v = bo.X
+		} else if IsNilConst(bo.X) {
+			v = bo.Y
+		}
+		phi, ok := v.(*ssa.Phi)
+		if !ok || phi.Block() != b {
+			continue
+		}
+		dec := make([]int, len(b.Preds))
+		any := false
+		for i := range b.Preds {
+			dec[i] = -1
+			if i >= len(phi.Edges) {
+				continue
+			}
+			switch known(phi.Edges[i], b.Preds[i]) {
+			case 1: // non-nil
+				any = true
+				if bo.Op == token.NEQ {
+					dec[i] = 0
+				} else {
+					dec[i] = 1
+				}
+			case 0:
+				any = true
+				if bo.Op == token.NEQ {
+					dec[i] = 1
+				} else {
+					dec[i] = 0
+				}
+			}
+		}
+		if any {
+			out[b] = dec
+		}
+	}
+	corrCache.Store(fn, out)
+	return out
+}
+
+// reach computes the blocks reachable from the start blocks, never entering a block in `avoid` and never following a cut edge. A block
+// with a correlated nil test (corrJoins) is left only through the successor that is feasible for the edge it was entered by.
 func reach(starts []*ssa.BasicBlock, avoid map[*ssa.BasicBlock]bool, cut map[[2]*ssa.BasicBlock]bool) map[*ssa.BasicBlock]bool {
 	seen := map[*ssa.BasicBlock]bool{}
 	var stack []*ssa.BasicBlock
+	var corr map[*ssa.BasicBlock][]int
+	generic := map[*ssa.BasicBlock]bool{}
+	if len(starts) > 0 && starts[0] != nil {
+		corr = corrJoins(starts[0].Parent())
+	}
 	for _, s := range starts {
 		if !avoid[s] && !seen[s] {
 			seen[s] = true
@@ -194,14 +341,65 @@ func reach(starts []*ssa.BasicBlock, avoid map[*ssa.BasicBlock]bool, cut map[[2]
 		b := stack[len(stack)-1]
 		stack = stack[:len(stack)-1]
 		for _, s := range b.Succs {
-			if cut[[2]*ssa.BasicBlock{b, s}] || avoid[s] || seen[s] {
+			if cut[[2]*ssa.BasicBlock{b, s}] || avoid[s] {
 				continue
+			}
+			if dec, isCorr := corr[s]; isCorr {
+				// entered from b: which way out?
+				way := -2
+				for i, p := range s.Preds {
+					if p == b && i < len(dec) {
+						if way == -2 {
+							way = dec[i]
+						} else if way != dec[i] {
+							way = -1
+						}
+					}
+				}
+				if way >= 0 {
+					seen[s] = true
+					t := s.Succs[way]
+					if !cut[[2]*ssa.BasicBlock{s, t}] && !avoid[t] {
+						if _, tc := corr[t]; tc {
+							// a correlated block right behind another one: enter it generically
+							if !seen[t] {
+								seen[t] = true
+								stack = append(stack, t)
+							}
+						} else if !seen[t] {
+							seen[t] = true
+							stack = append(stack, t)
+						}
+					}
+					continue
+				}
+			}
+			if seen[s] {
+				// a correlated block that was entered by a decided edge before is now entered generically: expand it once
+				if _, isCorr := corr[s]; isCorr && !generic[s] && !expanded(s, seen) {
+					generic[s] = true
+					stack = append(stack, s)
+				}
+				continue
+			}
+			if _, isCorr := corr[s]; isCorr {
+				generic[s] = true
 			}
 			seen[s] = true
 			stack = append(stack, s)
 		}
 	}
 	return seen
+}
+
+// expanded: every successor of b has been seen (so pushing b again adds nothing).
+func expanded(b *ssa.BasicBlock, seen map[*ssa.BasicBlock]bool) bool {
+	for _, s := range b.Succs {
+		if !seen[s] {
+			return false
+		}
+	}
+	return true
 }
 
 // CanReach: is there a CFG path from the end of block `from` ... precisely from the start of `from` to `to`, avoiding blocks.
@@ -623,9 +821,10 @@ const (
 
 // Test is an If instruction together with the successor taken when the guard rejects.
 type Test struct {
-	If   *ssa.If
-	Fail *ssa.BasicBlock
-	OK   *ssa.BasicBlock
+	If    *ssa.If
+	Fail  *ssa.BasicBlock
+	OK    *ssa.BasicBlock
+	Value ssa.Value // for nil tests of an error: the value compared with nil (v itself or something derived from it, e.g. a phi)
 }
 
 // TestsOf finds the If instructions that branch on value v under the given polarity.
@@ -644,9 +843,9 @@ func TestsOf(v ssa.Value, fw FailWhen) []Test {
 				}
 				switch fw {
 				case IsTrue:
-					out = append(out, Test{r, r.Block().Succs[0], r.Block().Succs[1]})
+					out = append(out, Test{If: r, Fail: r.Block().Succs[0], OK: r.Block().Succs[1]})
 				case IsFalse:
-					out = append(out, Test{r, r.Block().Succs[1], r.Block().Succs[0]})
+					out = append(out, Test{If: r, Fail: r.Block().Succs[1], OK: r.Block().Succs[0]})
 				}
 			case *ssa.UnOp:
 				if r.Op != token.NOT {
@@ -675,7 +874,13 @@ func TestsOf(v ssa.Value, fw FailWhen) []Test {
 					if !failWhenTrue {
 						pol = IsFalse
 					}
-					out = append(out, TestsOf(r, pol)...)
+					sub := TestsOf(r, pol)
+					for i := range sub {
+						if sub[i].Value == nil {
+							sub[i].Value = d
+						}
+					}
+					out = append(out, sub...)
 				case IsTrue, IsFalse:
 					bv, ok := BoolConst(other)
 					if !ok {
@@ -908,6 +1113,24 @@ func MustPassOK(g ssa.Instruction, v ssa.Value, fw FailWhen, boolFail *bool) (bo
 			continue
 		}
 		r := reach([]*ssa.BasicBlock{fn.Blocks[0]}, nil, cut)
+		if fw == ErrNonNil {
+			// sharper: a path either never meets the test, or leaves it by the rejecting edge knowing that the error is not nil — a later
+			// test of the same error (also after it went through a result variable and a phi) then takes its non-nil branch
+			r0 := reach([]*ssa.BasicBlock{fn.Blocks[0]}, map[*ssa.BasicBlock]bool{t.If.Block(): true}, nil)
+			r2 := ReachKnowingNonNil(t.If.Block(), t.Fail, map[ssa.Value]bool{v: true}, nil)
+			rr := map[*ssa.BasicBlock]bool{}
+			for b := range r0 {
+				if r[b] {
+					rr[b] = true
+				}
+			}
+			for b := range r2 {
+				if r[b] {
+					rr[b] = true
+				}
+			}
+			r = rr
+		}
 		bad := ""
 		for _, ret := range Returns(fn) {
 			if !r[ret.Block()] {
@@ -1149,6 +1372,51 @@ func EveryIterationPasses(g ssa.Instruction) bool {
 // this path: branches on `v == nil` / `v != nil` for such values (and for phis that receive such a value along the path taken) follow
 // only the consistent successor. Blocks in `avoid` are not entered. Returns the set of blocks that can be reached.
 func ReachKnowingNonNil(pred, start *ssa.BasicBlock, nonNil map[ssa.Value]bool, avoid map[*ssa.BasicBlock]bool) map[*ssa.BasicBlock]bool {
+	return reachKnowing(pred, start, nonNil, avoid, nil)
+}
+
+// FailEdgeBadReturns explores from the rejecting edge of test t of the error value v, knowing v is not nil on that edge (the fact follows v
+// through phis along the path taken, e.g. through a result variable), and returns the returns reached that may still be successful: their
+// error result is neither known non-nil on the path nor classified as a failure. For non-error guards (fw other than ErrNonNil) the
+// exploration is plain reachability. avoid: blocks not to enter (typically the guard's own block, for guards in loops).
+func FailEdgeBadReturns(t Test, v ssa.Value, fw FailWhen, avoid map[*ssa.BasicBlock]bool, boolFail *bool) (bad []*ssa.Return, reached int) {
+	fn := t.If.Parent()
+	var failVals map[ssa.Value]bool
+	facts := map[ssa.Value]bool{}
+	if fw == ErrNonNil {
+		failVals = Derived(v)
+		facts[v] = true
+	}
+	seenRet := map[*ssa.Return]bool{}
+	badSet := map[*ssa.Return]bool{}
+	reachKnowing(t.If.Block(), t.Fail, facts, avoid, func(ret *ssa.Return, f map[ssa.Value]bool) {
+		if ret.Block() == fn.Recover {
+			return
+		}
+		seenRet[ret] = true
+		if fw == ErrNonNil {
+			res := fn.Signature.Results()
+			for i := 0; i < res.Len() && i < len(ret.Results); i++ {
+				if !IsErrorType(res.At(i).Type()) {
+					continue
+				}
+				rv := ResolveSpill(ret.Results[i])
+				if f[rv] || f[ret.Results[i]] || certainlyNonNil(rv) {
+					return
+				}
+			}
+		}
+		if ClassifyReturn(ret, failVals, boolFail) != RetFailure {
+			badSet[ret] = true
+		}
+	})
+	for r := range badSet {
+		bad = append(bad, r)
+	}
+	return bad, len(seenRet)
+}
+
+func reachKnowing(pred, start *ssa.BasicBlock, nonNil map[ssa.Value]bool, avoid map[*ssa.BasicBlock]bool, onReturn func(*ssa.Return, map[ssa.Value]bool)) map[*ssa.BasicBlock]bool {
 	type state struct {
 		b    *ssa.BasicBlock
 		from *ssa.BasicBlock
@@ -1213,6 +1481,11 @@ func ReachKnowingNonNil(pred, start *ssa.BasicBlock, nonNil map[ssa.Value]bool, 
 		}
 		seen[key] = true
 		out[b] = true
+		if len(b.Instrs) > 0 && onReturn != nil {
+			if ret, ok := b.Instrs[len(b.Instrs)-1].(*ssa.Return); ok {
+				onReturn(ret, facts)
+			}
+		}
 		if len(b.Instrs) > 0 {
 			if ifi, ok := b.Instrs[len(b.Instrs)-1].(*ssa.If); ok {
 				if bo, ok := ifi.Cond.(*ssa.BinOp); ok && (bo.Op == token.EQL || bo.Op == token.NEQ) {
